@@ -322,6 +322,14 @@ func pair(kind string, fine bool) func() {
 		vrt.Quiesce()
 		c2 := x.w.MustConnect()
 		pa2 := c2.Probe(a.id)
+		// whether the last message the service routed before the race went to the
+		// object under test or to another one (a routing cache is in either state)
+		if vrt.ChooseFree(2, "the last message before the race went to the other object") == 1 {
+			if _, err := b.proxy.Echo(1); err != nil {
+				vrt.Failf("harness/echo", "%v", err)
+			}
+			vrt.Quiesce()
+		}
 		vrt.Explore()
 		vrt.SetFine(fine)
 		var ws []*vrt.Thread
